@@ -512,7 +512,7 @@ pub fn scenario(ctx: &mut Ctx) -> ScResult {
                     genuine_log[k].1.clone()
                 } else if let Some(&(tid, signed)) = live.first() {
                     ctx.st.inc("fault.forged_response");
-                    c.sim.gen_response(ctx, tid, 1, signed, &kw).0
+                    { let m = c.sim.model.txs.iter().rfind(|t| t.tid == tid).map(|t| t.method).unwrap_or(1); c.sim.gen_response(ctx, tid, m, signed, &kw).0 }
                 } else {
                     continue;
                 };
